@@ -232,4 +232,111 @@ example : quiescent (run [.register a1, .register a2, .unregister 1, .applyTask 
     ∧ (refRun [.register a1, .register a2, .unregister 1, .applyTask 0, .applyTask 0, .applyTask 0]).live = [(0, a1)] := by
   decide
 
+/-! ## register / unregister after the task handler was closed (`TaskHandler.flush()`, i.e. after shutdown)
+
+  `registerClosed` / `unregisterClosed` (Model/ConfigSvc.lean) run the regenerated `addCustomRefused` /
+  `removeCustomRefused`: the statements of `add_custom` / `remove_custom` with the submission inside `__trigger_update`
+  refused.  `e` is whatever `submit_task` raises (C09: `IllegalStateException`, a `BaseException`). -/
+
+/-- **register after close** — the registration IS stored (both lists, under the fresh handle), nothing is queued —
+    so it will never be installed — and the refusal leaves `register_tracepoint` instead of the handle: the caller
+    holds no handle for a registration the service keeps. -/
+theorem c13_register_after_close (v : Svc) (w : Wf v) (t : Trig) (e : Py.Exn) :
+    (registerClosed v (some t) e).1.customIds.zip (registerClosed v (some t) e).1.custom =
+      v.customIds.zip v.custom ++ [(v.nextHandle, t)] ∧
+    (registerClosed v (some t) e).1.queued = v.queued ∧
+    (registerClosed v (some t) e).2.2 = some e ∧
+    (registerClosed v (some t) e).1.polled = v.polled ∧ (registerClosed v (some t) e).1.hash = v.hash ∧
+    Wf (registerClosed v (some t) e).1 := by
+  have e1 : (registerClosed v (some t) e).1 = { (addCustom v (some t)).1 with queued := v.queued } := by
+    simp [registerClosed, addCustomRefused_eq]
+  refine ⟨?_, ?_, ?_, ?_, ?_, ?_⟩
+  · rw [e1]; exact zip_addCustom v t w
+  · rw [e1]
+  · simp [registerClosed, registerSubmits_eq]
+  · rw [e1]; rfl
+  · rw [e1]; rfl
+  · rw [e1]; exact wf_queued _ _ (wf_addCustom v t w)
+
+/-- a registration that cannot be interpreted never reaches the submission: after close it still returns its handle
+    quietly and changes nothing but the handle supply -/
+theorem c13_register_bad_after_close (v : Svc) (e : Py.Exn) :
+    registerClosed v none e = ({ v with nextHandle := v.nextHandle + 1 }, v.nextHandle, none) := by
+  simp [registerClosed, registerSubmits_eq, addCustomRefused_eq, addCustom_none_eq]
+
+/-- **unregister after close removes exactly it** — the handle's registration, and only that one, leaves both lists
+    (they stay parallel), nothing is queued — the handler keeps acting on what was installed — and the refusal leaves
+    `unregister()`. -/
+theorem c13_unregister_after_close_exact (v : Svc) (w : Wf v) (h : Handle) (t : Trig)
+    (hm : (h, t) ∈ v.customIds.zip v.custom) (e : Py.Exn) :
+    (unregisterClosed v h e).1.customIds.zip (unregisterClosed v h e).1.custom =
+      (v.customIds.zip v.custom).erase (h, t) ∧
+    (unregisterClosed v h e).1.queued = v.queued ∧
+    (unregisterClosed v h e).2 = some e ∧
+    Wf (unregisterClosed v h e).1 := by
+  have e1 : (unregisterClosed v h e).1 = { removeCustom v h with queued := v.queued } := by
+    simp [unregisterClosed, removeCustomRefused_eq]
+  have hin : h ∈ v.customIds := (List.of_mem_zip hm).1
+  refine ⟨?_, by rw [e1], ?_, by rw [e1]; exact wf_queued _ _ (wf_removeCustom v h w)⟩
+  · rw [e1]
+    show (removeCustom v h).customIds.zip (removeCustom v h).custom = _
+    rw [zip_removeCustom v h w]
+    exact filter_eq_erase _ h t (by rw [map_fst_regs _ w]; exact w.nodup) hm
+  · simp only [unregisterClosed, unregisterSubmits_eq]
+    cases hf : v.customIds.findIdx? (fun x => x == h) with
+    | none => exact absurd hin (findIdx_none_not_mem _ _ hf)
+    | some i => rfl
+
+/-- **twice is harmless, after close too** — a handle that is not (or no longer) registered finds nothing: no list
+    changes, no submission is attempted, nothing is raised. -/
+theorem c13_unregister_unknown_after_close (v : Svc) (h : Handle) (hn : h ∉ v.customIds) (e : Py.Exn) :
+    unregisterClosed v h e = (v, none) := by
+  have hf := findIdx_none_of_not_mem _ _ hn
+  simp [unregisterClosed, unregisterSubmits_eq, removeCustomRefused_eq, removeCustom_none v h hf, hf]
+
+/-- for every sequence of register / unregister calls on a closed handler nothing is ever queued, the service's own
+    configuration and hash are untouched, and the two lists stay parallel with distinct handles -/
+theorem c13_closed_never_queues (e : Py.Exn) (ops : List ClosedOp) (v : Svc) (w : Wf v) :
+    (ops.foldl (closedStep e) v).queued = v.queued ∧ (ops.foldl (closedStep e) v).polled = v.polled ∧
+    (ops.foldl (closedStep e) v).hash = v.hash ∧ Wf (ops.foldl (closedStep e) v) := by
+  induction ops generalizing v with
+  | nil => exact ⟨rfl, rfl, rfl, w⟩
+  | cons op rest ih =>
+    simp only [List.foldl_cons]
+    have step : (closedStep e v op).queued = v.queued ∧ (closedStep e v op).polled = v.polled ∧
+        (closedStep e v op).hash = v.hash ∧ Wf (closedStep e v op) := by
+      cases op with
+      | register b =>
+        have e1 : closedStep e v (.register b) = { (addCustom v b).1 with queued := v.queued } := by
+          simp [closedStep, registerClosed, addCustomRefused_eq]
+        rw [e1]
+        cases b with
+        | none => exact ⟨rfl, rfl, rfl, wf_queued _ _ (wf_addCustom_none v w)⟩
+        | some t => exact ⟨rfl, rfl, rfl, wf_queued _ _ (wf_addCustom v t w)⟩
+      | unregister h =>
+        have e1 : closedStep e v (.unregister h) = { removeCustom v h with queued := v.queued } := by
+          simp [closedStep, unregisterClosed, removeCustomRefused_eq]
+        rw [e1]
+        refine ⟨rfl, ?_, ?_, wf_queued _ _ (wf_removeCustom v h w)⟩
+        · cases hf : v.customIds.findIdx? (fun x => x == h) with
+          | none => rw [removeCustom_none v h hf]
+          | some i => rw [removeCustom_some v h i hf]
+        · cases hf : v.customIds.findIdx? (fun x => x == h) with
+          | none => rw [removeCustom_none v h hf]
+          | some i => rw [removeCustom_some v h i hf]
+    obtain ⟨q, pl, hh, w'⟩ := step
+    obtain ⟨a, b, c, d⟩ := ih _ w'
+    exact ⟨a.trans q, b.trans pl, c.trans hh, d⟩
+
+/-- non-vacuity: two registrations on one line, close, unregister the second (raises, removes exactly it), again
+    (quiet), register a third (raises, stored) -/
+example :
+    let s := run [.register ⟨"a.py", 1, "w1"⟩, .register ⟨"a.py", 1, "w2"⟩, .applyTask 0, .applyTask 0]
+    let r1 := unregisterClosed s.svc 1 .base
+    let r2 := unregisterClosed r1.1 1 .base
+    let r3 := registerClosed r2.1 (some ⟨"a.py", 1, "w3"⟩) .base
+    r1.2 = some .base ∧ r1.1.custom = [⟨"a.py", 1, "w1"⟩] ∧ r2 = (r1.1, none) ∧ r3.2.2 = some .base ∧
+    r3.1.customIds = [0, 2] ∧ r3.1.queued = [] ∧ s.h.installed = [⟨"a.py", 1, "w1"⟩, ⟨"a.py", 1, "w2"⟩] := by decide
+
+
 end C13
